@@ -35,6 +35,7 @@ sgstrs(trans_t trans, SuperMatrix *L, SuperMatrix *U,
  * trans   (input) Specifies the form of the system of equations:
  *          = NOTRANS: A * X = B  (No transpose)
  *          = TRANS:   A'* X = B  (Transpose)
+ *          = CONJ:    A'* X = B  (Conjugate transpose = Transpose)
  *
  * L       (input) SuperMatrix*
  *         The factor L from the factorization Pr*A*Pc=L*U as computed by
@@ -96,7 +97,7 @@ sgstrs(trans_t trans, SuperMatrix *L, SuperMatrix *U,
     Bstore = B->Store;
     ldb = Bstore->lda;
     nrhs = B->ncol;
-    if ( trans != NOTRANS && trans != TRANS ) *info = -1;
+    if ( trans != NOTRANS && trans != TRANS && trans != CONJ ) *info = -1;
     else if ( L->nrow != L->ncol || L->nrow < 0 ) *info = -3;
     else if ( U->nrow != U->ncol || U->nrow < 0 ) *info = -4;
     else if ( ldb < SUPERLU_MAX(0, L->nrow) ) *info = -6;
